@@ -42,7 +42,7 @@ def config_for(layout: c18_gen.Layout, ns: str, k: int) -> dict[str, Any]:
     return {
         "ns": ns,
         "cwd_kind": r.choice(("parent", "root", "root", "inside")),
-        "mp_kind": r.choice(("none", "none", "none", "root", "sub", "rootrel")),
+        "mp_kind": r.choice(("none", "none", "none", "root", "sub", "rootrel", "shadow", "shadow")),
         "mp_via": r.choice(("env", "config")),
         "import_mode": r.choice(("assigned", "candidates")),
         "inside_target": r.choice((".", "..")),
